@@ -402,7 +402,7 @@ RECURSIVE StateAfter(_, _)
 StateAfter(cmds, i) == IF i = 0 THEN InitLevels ELSE Step(StateAfter(cmds, i - 1), cmds[i])
 
 ProjGoals(levels) ==
-    LET g == Goals(levels) IN [j \in 1..Len(g) |-> [k |-> g[j].k, x |-> g[j].x, soft |-> g[j].soft]]
+    LET g == Goals(levels) IN [j \in 1..Len(g) |-> [k |-> g[j].k, x |-> g[j].x, soft |-> g[j].soft, sg |-> g[j].sg]]
 
 (* script: obs[i] = [formula (term), goals (seq of [k, x, soft])] for the prefix of length i;
    terms[x] = the formula / objective term with id x *)
